@@ -227,11 +227,30 @@ def main():
     data = json.load(open(sys.argv[1]))
     world = World(data["NF"], data["NW"], data["NL"])
     results = []
+    import signal
+
+    class Endless(BaseException):
+        pass
+
+    def on_alarm(signum, frame):
+        raise Endless()
+    signal.signal(signal.SIGALRM, on_alarm)
     for case in data["cases"]:
-        got = world.run(case)
-        bad = compare(case, got)
+        # the specification's extraction of these tables ends (TLC computed its result): so must the real one
+        signal.setitimer(signal.ITIMER_REAL, 20.0)
+        try:
+            got = world.run(case)
+            signal.setitimer(signal.ITIMER_REAL, 0)
+            bad = compare(case, got)
+        except Endless:
+            got, bad = None, ["the extraction did not end within 20 s (the specification's ends)"]
+            world = World(data["NF"], data["NW"], data["NL"])
+        finally:
+            signal.setitimer(signal.ITIMER_REAL, 0)
         if bad:
             results.append({"tid": case["tid"], "bad": bad, "got": got})
+            if sum(1 for r in results if r["got"] is None) >= 3:
+                break
     json.dump({"n": len(data["cases"]), "mismatches": results}, open(sys.argv[2], "w"))
 
 
